@@ -205,7 +205,9 @@ class ProductDomain(Domain):
                     * self.domain_b.volume(device=device)
                 )
                 self.set_volume(volume)
-                return torch.repeat_interleave(volume, max(1, len(params)), dim=0)
+                return torch.repeat_interleave(
+                    volume.reshape(-1, 1), max(1, len(params)), dim=0
+                )
 
     def sample_grid(self, n=None, d=None, params=Points.empty(), device="cpu"):
         raise NotImplementedError(
